@@ -527,7 +527,10 @@ fn far_from_origin<F: Scalar>(p: &Params) {
     let o: Vec<F> = out.column(0).to_vec();
     let constant = SymB::all(&(1..n).map(|i| xi[i].s_eq(xi[0])).collect::<Vec<_>>());
     let (zero, one) = (F::lit(0.0), F::lit(1.0));
-    let t = F::lit(1e-6 * n as f64);
+    // Tolerance.  The data are exact, but their condition number for a variance is kappa = |mean| / std >= 2^offs / B:
+    // ndarray's running-mean (Welford) variance is accurate to about n * kappa * eps only, which is what linfa inherits;
+    // a formula that squares the raw values (E[x^2] - mean^2) is off by kappa^2 * eps, i.e. by orders of magnitude more.
+    let t = F::lit((1e-6f64).max(64.0 * f64::EPSILON * (offs as f64).exp2()) * n as f64);
     match method {
         STD => {
             let s = sum(o.iter().copied());
